@@ -54,6 +54,10 @@ var channels = []channel{
 	{Name: "object-ids-spl", A: `$keep = []; for ($i = 0; $i < 5; $i++) { $keep[] = new stdClass; } echo count($keep);`,
 		B: `$o = new stdClass; $p = new stdClass; echo spl_object_id($o) == spl_object_id($o) ? 'same' : 'diff', spl_object_id($o) == spl_object_id($p) ? 'same' : 'diff';`},
 
+	{Name: "user-output-flag", A: `echo "a printed something";`,
+		B: `abstract class C20Abs { abstract function f(); abstract function g(); } class C20Conc extends C20Abs { } $x = new C20Conc();`},
+	{Name: "user-output-flag-uncaught", A: `var_dump(1); echo "x";`,
+		B: `function c20_t() { throw new LogicException("only diagnostics"); } c20_t();`},
 	{Name: "error-reporting-level", A: `error_reporting(0); echo "a";`, B: `echo error_reporting();`},
 	{Name: "header-callback-list", A: `header_register_callback(function() { echo "A-header-callback;"; });`, B: `echo "b";`},
 	{Name: "output-buffer-three-levels", A: `ob_start(); echo "1"; ob_start(); echo "2"; ob_start(); echo "3";`,
